@@ -94,9 +94,16 @@ type subResult struct {
 	diff       *astDiff // AST difference (if parsed)
 }
 
+// lastErrLine is the line of the first error of the most recent parseNodeIn call (0 = none).
+var lastErrLine int
+
 func firstErr(errs []error) string {
+	lastErrLine = 0
 	if len(errs) == 0 {
 		return ""
+	}
+	if hp, ok := errs[0].(ast.HasPosition); ok {
+		lastErrLine = hp.StartPosition().Line
 	}
 	return strings.TrimPrefix(strings.TrimPrefix(fmt.Sprintf("%T", errs[0]), "*parser."), "parser.")
 }
@@ -385,18 +392,58 @@ func localize(prog *ast.Program, src []byte) *localized {
 				}
 				return b.String()
 			}
-			repaired := func(use []bool) bool {
+			state := func(use []bool) (equal bool, errLine int) {
+				lastErrLine = 0
 				t, perr := parseIn(r.context, build(use))
-				return perr == "" && t == orig
+				if perr != "" {
+					return false, lastErrLine
+				}
+				return t == orig, 0
 			}
-			if !repaired(can) {
+			use := make([]bool, len(lines))
+			ok := false
+			for iter := 0; iter < 10 && !ok; iter++ {
+				eq, errLine := state(use)
+				if eq {
+					ok = true
+					break
+				}
+				if errLine > 0 {
+					// the line before the error line continues into it: separate them
+					placed := false
+					for i := min(errLine-2, len(lines)-2); i >= 0 && i >= errLine-4; i-- {
+						if can[i] && !use[i] {
+							use[i] = true
+							placed = true
+							break
+						}
+					}
+					if !placed {
+						return
+					}
+					continue
+				}
+				// parses but differs: one more semicolon somewhere?
+				for i := range can {
+					if can[i] && !use[i] {
+						use[i] = true
+						if eq, _ := state(use); eq {
+							ok = true
+							break
+						}
+						use[i] = false
+					}
+				}
+				break
+			}
+			if !ok {
 				return
 			}
-			use := append([]bool(nil), can...)
+			// drop semicolons that are not needed
 			for i := range use {
 				if use[i] {
 					use[i] = false
-					if !repaired(use) {
+					if eq, _ := state(use); !eq {
 						use[i] = true
 					}
 				}
@@ -435,6 +482,10 @@ func localize(prog *ast.Program, src []byte) *localized {
 				loc.Detail = fmt.Sprintf("printed %q does not parse as %s: %s", clipS(r.printed, 300), r.context, r.perr)
 			} else {
 				loc.Key = fmt.Sprintf("print-defect:%s:%s.%s", kind, r.diff.Node, r.diff.Field)
+				if r.diff.Node == "TestCondition" {
+					// a condition (or its message) absorbed the following line
+					loc.Key = "needs-separator:between-conditions"
+				}
 				loc.Detail = fmt.Sprintf("printed %q re-parses differently at %s: original %s, re-parsed %s", clipS(r.printed, 300), r.diff.Path, r.diff.A, r.diff.B)
 			}
 		}
